@@ -195,14 +195,14 @@ func (s *c19Sys) Apply(e clustermc.Ev) []clustermc.Fail {
 	case "expire":
 		key := s.P.Keys[d][e.B]
 		l := s.live(d, key)
-		r := kv.Expire(key, 3*time.Second)
+		r := kv.Expire(key, 2500*time.Millisecond)
 		switch {
 		case l == nil && r.Err != "notfound":
 			add("result/expire-missing", "Expire on missing key %q/%q returned %q", s.P.DMaps[d], key, r.Err)
 		case l != nil && r.Err != "":
 			add("result/expire", "Expire failed: %s", r.Err)
 		case l != nil:
-			l.Exp = nowMS + 3000
+			l.Exp = nowMS + 2500
 		}
 	case "destroy":
 		if r := kv.Destroy(); r.Err != "" {
